@@ -1728,6 +1728,32 @@ def pg_post(c, p):
     return and_(eq(a[1].t, "((_ extract 15 0) %s)" % segv), ule("(bvadd %s %s)" % (zext(startv, 64), zext(segv, 64)), zext(capv, 64)))
 
 
+# ------------------------------------------------------------------ C13: a datagram that uses a loss-probe credit is budgeted at most 1200 bytes (slice)
+def ppc_post(c, p):
+    st = p.p.state
+    if p.p.outcome != "stop":
+        return "true"
+    dbg = c.fn.debug
+    try:
+        cap, seg = dbg["buf_capacity"][0], dbg["segment_size"][0]
+    except (KeyError, IndexError):
+        return "false"
+    cap0, segv = c.inp(cap, BV64), c.inp(seg, BV64)
+    cap1 = c.ex.read_key(st, cap, BV64).t
+    delta = "(bvsub %s %s)" % (cap1, cap0)
+    probe = bool(p.called(r"IndexMut<SpaceId>>::index_mut$"))
+    clamp = ite(ult(segv, bv(1200)), segv, bv(1200))
+    return eq(delta, clamp if probe else segv)
+
+
+Q(name="e2_poll_transmit_probe_clamp_slice", props=["C13"], func=r"connection/mod\.rs:\d+:1: \d+:16>::poll_transmit$",
+  src="connection/mod.rs", within=r"^    pub fn poll_transmit\(", start_line=[r"let next_datagram_size_limit = match self\.spaces\[space_id\]\.loss_probes \{", r"(?#after)// Allocate space for another datagram$"], end_line=r"if buf\.capacity\(\) < buf_capacity \{",
+  check_stop=True, allowed_panics=r".", ignore_untranslatable=r"^loop at", release_arith=True,
+  functions=["Connection::poll_transmit (slice: the size budget granted to the next datagram)"], pre=lambda c: "true", post=ppc_post,
+  bounds="from an arbitrary state (segment_size, buf_capacity, the configuration and the number of loss-probe credits unconstrained): the budget added for the next datagram is segment_size when no loss-probe credit is used, and min(segment_size, 1200) - the protocol's minimum MTU, whatever min_mtu the configuration names - when one is (the branch that decrements loss_probes); with e2_poll_transmit_pad_guard_slice this keeps every loss probe within 1200 bytes so that it gets through a path whose MTU has shrunk",
+  replay=("conn_loss_probe_size_native", lambda m: [dict(x=0), dict(x=1)]))
+
+
 Q(name="e2_poll_transmit_pad_guard_slice", props=["C13"], func=r"connection/mod\.rs:\d+:1: \d+:16>::poll_transmit$",
   src="connection/mod.rs", within=r"^    pub fn poll_transmit\(", start_line=[r"if pad_datagram_to_mtu && ", r"(?#after)// by less than `segment_size`\.$"], end_line=r"let last_packet_number = builder\.exact_number;",
   check_stop=True, allowed_panics=r".", ignore_untranslatable=r"^loop at",
